@@ -260,9 +260,9 @@ def _overlay(case):
 PROBE = {"sk": [
     ["text", "a\n  "], ["block", "", "", " set z = 1 "], ["text", "\n b "], ["comment", "", "", " c "], ["text", "\n"], ["var", "", "", " v ", "V"],
     ["foreign", 18], ["foreign", 19], ["foreign", 20], ["foreign", 21], ["foreign", 0], ["foreign", 3], ["foreign", 6], ["foreign", 9],
-    ["foreign", 12], ["foreign", 15], ["foreign", 23], ["text", "\t"], ["raw", "", "", " r\n", "", "", [" ", " ", " ", " "]], ["text", "\n"],
+    ["foreign", 12], ["foreign", 15], ["foreign", 23], ["midls"], ["text", "\n\t"], ["raw", "", "", " r\n", "", "", [" ", " ", " ", " "]], ["text", "\n"],
 ]}
-PROBE_LINES = {"lsk": {"lines": [["L", " ", [["text", "a"]], [" ", " c "]], ["S", "  ", " if true"], ["L", "", [["var", "", "", " v ", "V"]], None],
+PROBE_LINES = {"lsk": {"lines": [["L", " ", [["midls"], ["text", "a"]], [" ", " c "]], ["S", "  ", " if true"], ["L", "", [["var", "", "", " v ", "V"]], None],
                                   ["C", " ", " note"], ["S", "", " endif"], ["L", "", [["text", "b."]], None]], "final_nl": True}}
 
 
@@ -383,7 +383,7 @@ def shards(tier):
 def run_shard(spec, ctx):
     s = strategies(ctx.tier)
     rec = core.Rec()
-    sizes = {"a": ctx.pick(600, 9000), "b": ctx.pick(1200, 18000), "c": ctx.pick(800, 12000), "d": ctx.pick(400, 6000), "e": ctx.pick(22, 330)}
+    sizes = {"a": ctx.pick(600, 7000), "b": ctx.pick(1200, 14000), "c": ctx.pick(800, 9000), "d": ctx.pick(400, 4500), "e": ctx.pick(22, 250)}
     for k in "abcde":
         skel.hyp_chunks(s[k], check_case, ctx, sizes[k], rec, k, chunk=3000)
         if rec.violations:
